@@ -367,6 +367,74 @@ theorem aes_cbc_enc_tables_conforms (key iv m : Bytes) (cap : Nat) (hk : validKe
   rw [Relic.Lemmas.AesCbc.cbcEnc_congr _ _ hEq hE iv hiv _ hB16]
   rfl
 
+/-- rijndaelKeySetupDec (key expansion, reversal of the round keys, InvMixColumns of the middle ones through Td0[Te4[..] & 0xff] …)
+    leaves the FIPS 197 §5.3.5 decryption keys, in reverse order, for every key -/
+theorem rijndael_keySetupDec_conforms (key : Bytes) (hk : validKey key) :
+    ∃ rk, Rijndael.keySetupDec key = some (rk, key.length / 4 + 6) ∧
+      Relic.Lemmas.Rijndael.RkOK rk (Aes.eqInvKeys (Aes.keyExpansion key)).reverse :=
+  Relic.Lemmas.Rijndael.Key.keySetupDec_ok key hk
+
+/-- AES block decryption of the library (rijndaelKeySetupDec + rijndaelDecrypt, table-driven) = FIPS 197 InvCipher under the
+    FIPS 197 key expansion: every key size, every key, every block -/
+theorem rijndael_aesD_conforms (key blk : Bytes) (hk : validKey key) (hb : blk.length = 16) :
+    Rijndael.aesD key blk = Aes.invCipher (Aes.keyExpansion key) blk := by
+  obtain ⟨rk, hks, hok⟩ := Relic.Lemmas.Rijndael.Key.keySetupDec_ok key hk
+  obtain ⟨_, _, _, hlen⟩ := Relic.Lemmas.Rijndael.Key.keySetupEnc_ok key hk
+  obtain ⟨hne, h16⟩ := Relic.Lemmas.Aes.keyExpansion_length key hk
+  unfold Rijndael.aesD
+  rw [hks]
+  have := Relic.Lemmas.Rijndael.Dec.decrypt_eq rk (Aes.eqInvKeys (Aes.keyExpansion key)) (key.length / 4 + 6) hok
+    (by rw [Relic.Lemmas.AesEqInv.eqInvKeys_length _ hne, hlen]) (by unfold validKey at hk; omega)
+    (Relic.Lemmas.AesEqInv.eqInvKeys_length16 _ hne h16) blk hb
+  simp only at this ⊢
+  rw [this]
+  exact Relic.Lemmas.AesEqInv.eqInvCipher_keyExpansion key blk hk hb
+
+/-- the table-driven block decryption inverts the table-driven block encryption -/
+theorem rijndael_aesD_aesE (key blk : Bytes) (hk : validKey key) (hb : blk.length = 16) :
+    Rijndael.aesD key (Rijndael.aesE key blk) = blk := by
+  rw [rijndael_aesE_conforms key blk hk hb,
+    rijndael_aesD_conforms key _ hk (Relic.Lemmas.Aes.cipher_length key blk hk hb)]
+  exact Relic.Lemmas.Aes.invCipher_cipher key blk hk hb
+
+/-- bc_aes_cbc_dec with the table-driven block cipher (the model the driver executes) = PKCS#7-unpad ∘ CBC-decrypt of the
+    specification, for every input -/
+theorem aes_cbc_dec_tables_conforms (key iv c : Bytes) (cap : Nat) (hk : validKey key) (hiv : iv.length = 16)
+    (hcap : c.length ≤ cap) :
+    Bc.bcAesCbcDec Rijndael.aesD cap c key iv = Aes.aesCbcPkcs7Dec key iv c := by
+  have hEq : ∀ b : Bytes, b.length = 16 → Rijndael.aesD key b = Aes.invCipher (Aes.keyExpansion key) b :=
+    fun b hb => rijndael_aesD_conforms key b hk hb
+  have hD : ∀ b : Bytes, b.length = 16 → (Rijndael.aesD key b).length = 16 :=
+    fun b hb => by rw [hEq b hb]; exact Relic.Lemmas.Aes.invCipher_length key b hk hb
+  unfold Bc.bcAesCbcDec
+  rw [if_neg (by omega), if_neg (by unfold validKey at hk; omega)]
+  rw [padDecrypt_eq (Rijndael.aesD key) hD iv hiv c]
+  unfold Aes.aesCbcPkcs7Dec
+  by_cases h0 : c.length = 0 ∨ c.length % 16 ≠ 0
+  · rw [if_pos h0, if_pos h0]
+  · rw [if_neg h0, if_neg h0]
+    obtain ⟨_, hB16⟩ := flatten_chunks16 (c.length / 16 + 1) c (by omega) (by omega)
+    rw [Relic.Lemmas.AesCbc.cbcDec_congr _ _ hEq iv _ hB16]
+
+/-- AES-CBC with PKCS#7 through the table-driven code of the library, end to end: whatever bc_aes_cbc_enc returns,
+    bc_aes_cbc_dec decrypts to the plaintext; no hypothesis -/
+theorem aes_cbc_roundtrip_tables (key iv m : Bytes) (cap : Nat) (hiv : iv.length = 16) (c : Bytes)
+    (henc : Bc.bcAesCbcEnc Rijndael.aesE cap m key iv = some c) :
+    Bc.bcAesCbcDec Rijndael.aesD c.length c key iv = some m := by
+  by_cases hk : validKey key
+  · have hE : ∀ b : Bytes, b.length = 16 → (Rijndael.aesE key b).length = 16 :=
+      fun b hb => by rw [rijndael_aesE_conforms key b hk hb]; exact Relic.Lemmas.Aes.cipher_length key b hk hb
+    have hD : ∀ b : Bytes, b.length = 16 → (Rijndael.aesD key b).length = 16 :=
+      fun b hb => by rw [rijndael_aesD_conforms key b hk hb]; exact Relic.Lemmas.Aes.invCipher_length key b hk hb
+    exact aes_cbc_roundtrip Rijndael.aesE Rijndael.aesD key iv m cap
+      (fun b hb => rijndael_aesD_aesE key b hk hb) hE hD hiv c henc
+  · exfalso
+    unfold Bc.bcAesCbcEnc at henc
+    unfold validKey at hk
+    split at henc
+    · simp at henc
+    · rw [if_pos (by omega)] at henc; simp at henc
+
 /-- the constant tables of the hash implementations, as extracted from the C text on every run (Gen/MdConsts.lean: K[64] and
     the initial values of sha224-256.c, K[80] and the initial values of sha384-512.c, blake2s_IV and blake2s_sigma of
     blake2s-ref.c), are the constants of the FIPS 180-4 / RFC 7693 definitions the theorems above speak about -/
